@@ -95,6 +95,17 @@ pub(crate) fn vrt_observe_bytes(v: &[u8]) {
     println!("VRT-OBS [{}]", s.join(","));
 }
 
+/// write a file of the (virtual) file system and return the path to open it with.
+/// native: a per-process temp directory; E2: a per-path dictionary consulted by the File::open / read_data models
+#[inline(never)]
+pub(crate) fn vrt_fs_write(name: &str, content: &[u8]) -> String {
+    let dir = std::env::temp_dir().join(format!("vrt_fs_{}", std::process::id()));
+    std::fs::create_dir_all(&dir).unwrap();
+    let p = dir.join(name);
+    std::fs::write(&p, content).unwrap();
+    p.to_string_lossy().to_string()
+}
+
 // ---- helpers built on the primitives (plain Rust: executed symbolically like any other code)
 
 /// n symbolic bytes (n is a compile-time constant of the harness: concrete length)
